@@ -2,7 +2,7 @@
 # re-runs every stored seeded change against the current /repo tree: applies it, runs the quick tier of its
 # property's check, undoes it; prints one line per change. usage: seedmatrix.sh [id-prefix]
 cd /verif
-for d in seeded/${1:-C}*; do
+for d in /verif/seeded/${1:-C}*; do
   id=$(basename $d); prop=${id%%-*}
   if ! git -C /repo apply --check $d/patch.diff 2>/dev/null; then
     if git -C /repo apply --3way --check $d/patch.diff 2>/dev/null; then how="3way"; else echo "$id PATCH-DOES-NOT-APPLY"; continue; fi
